@@ -1,5 +1,5 @@
 import Proofs.C04
-import Proofs.Gen
+import Proofs.GenTables
 #print axioms Xsel.C04.bool_conv
 #print axioms Xsel.C04.bool_to_num_str
 #print axioms Xsel.C04.conv_basic
